@@ -159,6 +159,24 @@ func C12(tier common.Tier) int {
 								base.Blocks = append(base.Blocks, e1.UseBlock{Encl: b.Encl, Stmts: b.Stmts, ID: i + 1})
 							}
 							bb, _, bcrash, _ := e1.UseObserve(fam, base)
+							// reordering the declarations of the DECLARING package (and annotating only a subset of the items)
+							for _, skip := range []int{0, 3, 7, 24} {
+								sb := *base
+								sb.Mix.Skip = skip
+								sbb := bb
+								var sc string
+								if skip != 0 {
+									sbb, _, sc, _ = e1.UseObserve(fam, &sb)
+								} else {
+									sc = bcrash
+								}
+								for order := 1; order < 4; order++ {
+									v := sb
+									v.Mix.DeclOrder = order
+									vb, _, vcrash, text := e1.UseObserve(fam, &v)
+									compareLayout(run, fam, fmt.Sprintf("declaring-package-order%d/skip%d", order, skip), e1.UseSpecString(&sb), pkg.Path, sb.Mix.String(), sbb, vb, sc, vcrash, text, fam+"01")
+								}
+							}
 							for _, lt := range layouts(len(h), pairs) {
 								v := &e1.UseSpec{Pkg: pkg, Mix: mix, Sites: useSites, BlankLines: lt.blank, Mangle: lt.mangle}
 								for pos := range h {
